@@ -190,7 +190,9 @@ def run(ck):
     NON_SOLUTION = 1e-3
     # reverse_iast with a requested TRACE fraction (1e-6 .. 5e-4): measured on the unchanged tree (seeds 1-3, 7 boosted) - closed forms below 2e-8, forward(reverse) below 2e-6
     # (the root finding is in the gas fractions, which are not small relative to the requested ones); a defect of the class (the trace fraction replaced / clamped) is a factor >= 2.
-    TRACE_CF_TOL, TRACE_INV_TOL = 1e-5, 1e-3
+    # (closed form at 1e-3, not 1e-5: the library accepts a point whose spreading pressures agree to 1e-4, and from a far user guess the root finder stops with a
+    #  trace gas fraction 1.7e-5 off — false alarm of the final sweep, quick seed 5; the defect class, a clamp of the requested trace fraction, moves it by a factor)
+    TRACE_CF_TOL, TRACE_INV_TOL = 1e-3, 1e-3
     NON_SOLUTION_CLAUSE = "a non-solution is returned: spreading pressures at the fictitious pressures differ by more than 0.1 %"
 
     def certificate(isos, pp, loads, sig, detail, independent=True, coarse=None):
